@@ -234,7 +234,27 @@ def lookup_tables(lang):
         if "result" in n.split("_"):
             e = ents[n]
             rrows.append((eid[n], ret_class(e, typemap), 1 if e.return_cptr else 0, 1 if e.f_result_decl else 0))
-    return names, pairs, rpairs, ents, rrows, combos
+    # a function result that becomes an argument (bufferify / CFI clones of char and string functions):
+    # wrapc uses the indirection of the ORIGINAL result (CXX_ast.get_indirect_stmt()), wrapf the indirection of the new
+    # argument, which Declaration._as_arg makes a pointer when the result was a scalar: scalar vs *
+    GCODE = {"char": 1, "string": 2, "vector": 3}
+    rapairs = []
+    for g in sg:
+        for si, sx in enumerate(("buf", "cfi")):
+            for di, dr in enumerate(DEREFS):
+                a = statements.lookup_fc_stmts(["c", g, "scalar", "result", sx, dr])
+                b = statements.lookup_fc_stmts(["c", g, "*", "result", sx, dr])
+                rapairs.append((GCODE.get(g, 0), si, di, sid(a), sid(b)))
+    # every C entry: what both builders read from it
+    BUF = {"arg": 0, "shadow": 1, "arg_decl": 2, "size": 3, "capsule": 4, "context": 5, "len_trim": 6, "len": 7}
+    erows = []
+    for n in names:
+        e = ents.get(n) or statements.default_scopes["c"]
+        parts = n.split("_")
+        erows.append((eid[n], [BUF.get(b, 99) for b in e.buf_args], [BUF.get(b, 99) for b in e.buf_extra],
+                      ret_class(e, typemap), 1 if e.return_cptr else 0, len(e.f_result_decl), len(e.c_arg_decl), len(e.f_arg_decl),
+                      1 if "ctor" in parts else (2 if "dtor" in parts else 0)))
+    return names, pairs, rpairs, ents, rrows, combos, erows, rapairs
 
 
 def decl_rows(ents):
@@ -439,7 +459,7 @@ def render(data):
     L = ["/- GENERATED by tools/extract_interop.py from the /repo working tree.  Do not edit. -/",
          "namespace Shroud.Gen.Interop", ""]
     for lang, key in (("C", "c"), ("Cxx", "c++")):
-        names, pairs, rpairs, rrows = data["lookup"][key]
+        names, pairs, rpairs, rrows, erows, rapairs = data["lookup"][key]
         L.append("/-- language %s: (entry id by the wrapc path, entry id by the wrapf interface path) for every combination;" % key)
         L.append("    order: sgroup %s x spointer %s x intent x suffix x deref x cdesc x specialize -/" % (data["sgroups"], SPOINTERS))
         chunks = [pairs[i:i + 2520] for i in range(0, len(pairs), 2520)]
@@ -456,6 +476,17 @@ def render(data):
         L.append("/-- entries reachable by the Fortran result path: (entry id, forced return class 0 none 1 void 2 pointer, return_cptr, has f_result_decl) -/")
         L.append("def resultEntries%s : List (Nat × Nat × Nat × Nat) := [" % lang)
         L.append(_lst([_tup(x) for x in rrows], per=10))
+        L.append("]")
+        L.append("/-- result that becomes an argument: (type group 1 char 2 string 3 vector 0 other, suffix 0 buf 1 cfi, deref index")
+        L.append("    (0 none 1 allocatable 2 pointer 3 raw 4 scalar), signature id by wrapc's path (scalar), by wrapf's path (*)) -/")
+        L.append("def resultArgPairs%s : List (Nat × Nat × Nat × Nat × Nat) := [" % lang)
+        L.append(_lst([_tup(x) for x in rapairs], per=10))
+        L.append("]")
+        L.append("/-- every C statement entry (and c_default): (entry id, buf_args codes, buf_extra codes, forced return class, return_cptr,")
+        L.append("    number of f_result_decl, number of c_arg_decl, number of f_arg_decl, 1 ctor / 2 dtor / 0 other);")
+        L.append("    buf codes 0 arg 1 shadow 2 arg_decl 3 size 4 capsule 5 context 6 len_trim 7 len, 99 unknown -/")
+        L.append("def entryRows%s : List (Nat × List Nat × List Nat × Nat × Nat × Nat × Nat × Nat × Nat) := [" % lang)
+        L.append(",\n".join("  (%d, %s, %s, %d, %d, %d, %d, %d, %d)" % (r[0], list(r[1]), list(r[2]), r[3], r[4], r[5], r[6], r[7], r[8]) for r in erows))
         L.append("]")
         L.append("def entryNames%s : List String := [" % lang)
         L.append(_lst(['"%s"' % n for n in names], per=6))
@@ -510,8 +541,8 @@ def collect():
     data = {"lookup": {}}
     decl_all, rdecl_all = {}, {}
     for lang in ("c", "c++"):
-        names, pairs, rpairs, ents, rrows, combos = lookup_tables(lang)
-        data["lookup"][lang] = (names, pairs, rpairs, rrows)
+        names, pairs, rpairs, ents, rrows, combos, erows, rapairs = lookup_tables(lang)
+        data["lookup"][lang] = (names, pairs, rpairs, rrows, erows, rapairs)
         data.setdefault("disagreements", []).extend(combos)
         rows, rrows = decl_rows(ents)
         for n, cs, fs in rows:
